@@ -422,3 +422,41 @@ class Z3Model:
             else:
                 out.append(None)
         return out
+
+
+# ------------------------------------------------------------------ floating-point values (C06: transcendental types)
+import math
+
+_UNARY_F = {"ExpConstraint": math.exp, "LogConstraint": math.log, "SinConstraint": math.sin, "CosConstraint": math.cos,
+            "TanConstraint": math.tan, "AsinConstraint": math.asin, "AcosConstraint": math.acos, "AtanConstraint": math.atan,
+            "SinhConstraint": math.sinh, "CoshConstraint": math.cosh, "TanhConstraint": math.tanh, "AsinhConstraint": math.asinh,
+            "AcoshConstraint": math.acosh, "AtanhConstraint": math.atanh}
+
+
+def func_value_float(c, x):
+    """Value of the functional constraint's right-hand side at float point x; None where f is undefined or unknown."""
+    d, t = c.d, c.type
+    try:
+        if t in _UNARY_F:
+            return _UNARY_F[t](x[d["args"][0]])
+        if t == "ExpAConstraint":
+            return hx(d["params"][0]) ** x[d["args"][0]]
+        if t == "LogAConstraint":
+            return math.log(x[d["args"][0]]) / math.log(hx(d["params"][0]))
+        if t == "PowConstraint":
+            p, b = hx(d["params"][0]), x[d["args"][0]]
+            if b < 0 and p != int(p):
+                return None
+            if b == 0 and p < 0:
+                return None
+            return b ** p
+        if t == "DivConstraint":
+            a = [x[i] for i in d["args"]]
+            return None if a[1] == 0 else a[0] / a[1]
+    except (ValueError, OverflowError, ZeroDivisionError):
+        return None
+    xf = [Fraction(v) if v == v and v not in (INF, -INF) else None for v in x]
+    if any(v is None for v in xf):
+        return None
+    r = func_value(c, xf)
+    return None if r is None else float(r)
